@@ -480,6 +480,43 @@ Proof.
   - rewrite H1. reflexivity.
 Qed.
 
+(* ------------------------------------------------------------------------------------------------ after the call *)
+Lemma hold0_idle : forall ws, list_sum (map w_hold ws) = O -> forallb w_idle ws = true.
+Proof.
+  induction ws as [|w ws IH]; cbn; auto. intro H.
+  destruct w as [[|pc] cur failed|]; cbn in *; try lia; auto.
+Qed.
+
+(* when main has returned or raised nothing is left to do for the call: the queue is empty, every range taken has been marked
+   done, and no worker holds a range - each has left its loop or stands at the head of it *)
+Theorem queue_quiet : forall workers s, (1 <= workers)%nat -> qreach workers s -> main_done s = true ->
+  s_q s = [] /\ s_unf s = O /\ forallb w_idle (s_ws s) = true.
+Proof.
+  intros workers s Hw Hr Hd. destruct (inv_reach _ _ Hw Hr) as [Hunf Hperm Hit Hwok Halive Hmain].
+  assert (Hu : s_unf s = O).
+  { unfold main_done in Hd.
+    destruct Hmain as [H1 H2 H3|H1 H2 H3 H4|H1 H2 H3 H4 H5|H1 H2 H3 H4 H5 H6|H1 H2 H3 H4 H5 H6 H7|r H1 H2 H3];
+      try (rewrite H1 in Hd; discriminate); auto. }
+  rewrite Hu in Hunf. repeat split; auto.
+  - destruct (s_q s); auto. cbn in Hunf. lia.
+  - apply hold0_idle. lia.
+Qed.
+
+(* ... so the only thing that can still happen is a worker finding the queue empty and leaving: no request, no result, no
+   task_done after the call has returned or raised; queues, buffer and outcome stay as they are *)
+Theorem queue_after_done : forall workers s t s', (1 <= workers)%nat -> qreach workers s -> main_done s = true ->
+  qstep s t = Some s' -> exists i, t = S i /\ s' = with_w s i WExit (s_q s) (s_unf s) (s_resq s).
+Proof.
+  intros workers s t s' Hw Hr Hd Hstep. destruct (queue_quiet _ _ Hw Hr Hd) as (Hq & Hu & Hidle).
+  destruct t as [|i]; cbn [step] in Hstep.
+  - unfold mstep in Hstep. unfold main_done in Hd. destruct (s_status s); discriminate.
+  - exists i. split; auto. unfold wstep in Hstep.
+    destruct (nth_error (s_ws s) i) as [[pc cur failed|]|] eqn:Hn; try discriminate.
+    rewrite forallb_forall in Hidle. specialize (Hidle _ (nth_error_In _ _ Hn)).
+    destruct pc as [|pc]; [|discriminate]. rewrite wp_shape in Hstep. cbn in Hstep. rewrite Hq in Hstep.
+    inversion Hstep. rewrite Hq. reflexivity.
+Qed.
+
 (* ------------------------------------------------------------------------------------------------ termination *)
 Lemma wsum_mid : forall wp a w b, wsum wp (a ++ w :: b) = (wsum wp a + wmeasure wp w + wsum wp b)%nat.
 Proof. intros wp a w b. unfold wsum. induction a as [|x a IH]; cbn; [lia|]. fold (wsum wp) in *. rewrite IH. lia. Qed.
